@@ -298,3 +298,31 @@ def c02_extra(Job, tier):
     return [Job("D_info_line_%s" % cfg[0], "harness/dfs_info.c", "h_info_line", enforce=["info_line"], defines=list(cfg[1]),
                 extract=ext(INFO_GROUP), tier="quick", solver="portfolio",
                 cbmc=["--unwindset", "CatalogEntry_name.0:8", "--unwinding-assertions"])]
+
+
+# ---- write_span of extract-unused (C11 dfs half, C14) ---------------------------------------------------------------
+def write_span_jobs(Job, cfg=CFG_NDEBUG, tier="quick"):
+    return [Job("D_write_span_%s" % cfg[0], "harness/dfs_unused.c", "h_write_span", enforce=["write_span"], loops=True,
+                defines=list(cfg[1]), extract=ext(["write_span"]), tier=tier, cover=True, solver="portfolio")]
+
+
+def c11_jobs(Job, tier):            # noqa: F811  (replaces the placeholder above)
+    return write_span_jobs(Job) + listtype_jobs(Job)[1:2]
+
+
+def c14_extra(Job, tier):
+    return write_span_jobs(Job)
+
+
+# ---- check_track_is_supported (C06 iii, C07) -------------------------------------------------------------------------
+def trackcheck_jobs(Job, cfg=CFG_NDEBUG, tier="quick"):
+    return [Job("D_check_track_is_supported_%s" % cfg[0], "harness/dfs_trackcheck.c", "h_trackcheck", enforce=["check_track_is_supported"],
+                loops=True, defines=list(cfg[1]), extract=ext(["check_track_is_supported"]), tier=tier, cover=True, solver="portfolio")]
+
+
+def c06_extra(Job, tier):
+    return trackcheck_jobs(Job)
+
+
+def c07_extra(Job, tier):
+    return trackcheck_jobs(Job) + mmb_jobs(Job) + write_span_jobs(Job)
